@@ -80,6 +80,12 @@ struct Inner {
     prio: HashMap<usize, u64>,
     rounds_completed: u64,
     panicked: bool,
+    /// decisions taken because the system went quiet although fewer than `threads` workers had reported
+    /// (an implementation is free to start fewer workers than requested)
+    quiescence_decisions: u64,
+    last_event: Instant,
+    /// workers released by a decision that have neither parked again nor exited yet
+    running: usize,
 }
 
 pub struct Controller {
@@ -89,6 +95,7 @@ pub struct Controller {
 }
 
 pub struct RunTrace {
+    pub quiescence_decisions: u64,
     pub events: Vec<Event>,
     pub choices: Vec<(u32, u32, u64)>,
     pub diverged: bool,
@@ -123,6 +130,9 @@ impl Controller {
                 prio: HashMap::new(),
                 rounds_completed: 0,
                 panicked: false,
+                quiescence_decisions: 0,
+                last_event: Instant::now(),
+                running: 0,
             }),
             cv: Condvar::new(),
             watchdog: Duration::from_secs(30),
@@ -145,6 +155,7 @@ impl Controller {
         Controller::uninstall();
         let mut g = self.inner.lock().unwrap_or_else(|e| e.into_inner());
         RunTrace {
+            quiescence_decisions: g.quiescence_decisions,
             events: std::mem::take(&mut g.events),
             choices: std::mem::take(&mut g.choices),
             diverged: g.diverged,
@@ -202,6 +213,7 @@ impl Controller {
             let next = g.workers.len();
             let w = *g.workers.entry(tid).or_insert(next);
             g.events.push(Event { worker: w, site, args });
+            g.last_event = Instant::now();
             // online bounds monitor for the mapped writer: the hook fires *before* the copy, so an
             // out-of-bounds write is turned into a panic here instead of corrupting memory / SIGSEGV
             if site == "mm.write" && args[0].checked_add(args[1]).map_or(true, |end| end > args[2]) {
@@ -224,6 +236,7 @@ impl Controller {
                         return;
                     }
                     if site == g.took_site && args[0] != NONE {
+                        g.running = g.running.saturating_sub(1);
                         g.parked.push((w, args[0]));
                         if g.parked.len() + g.exited >= g.threads {
                             Controller::decide(&mut g);
@@ -233,6 +246,7 @@ impl Controller {
                         loop {
                             if g.released == Some(w) {
                                 g.released = None;
+                                g.running += 1;
                                 break;
                             }
                             if g.aborted {
@@ -245,10 +259,20 @@ impl Controller {
                                 self.cv.notify_all();
                                 break;
                             }
-                            let (ng, _) = self.cv.wait_timeout(g, (deadline - now).min(Duration::from_millis(200))).unwrap_or_else(|e| e.into_inner());
+                            let (ng, _) = self.cv.wait_timeout(g, (deadline - now).min(Duration::from_millis(40))).unwrap_or_else(|e| e.into_inner());
                             g = ng;
+                            // quiescence rule: nobody is running (no event for a while, nobody released) although
+                            // fewer than `threads` workers reported -> the implementation started fewer workers;
+                            // decide among those that are parked
+                            if g.released.is_none() && g.running == 0 && !g.parked.is_empty() && !g.aborted && g.last_event.elapsed() > Duration::from_millis(150) {
+                                g.quiescence_decisions += 1;
+                                Controller::decide(&mut g);
+                                g.last_event = Instant::now();
+                                self.cv.notify_all();
+                            }
                         }
                     } else if site == g.exit_site {
+                        g.running = g.running.saturating_sub(1);
                         g.exited += 1;
                         if g.exited >= g.threads {
                             // all workers of this round (chunk) are gone: re-arm for the next round
